@@ -18,7 +18,7 @@ echo "demo_with_exit=$W demo_without_exit=$WO pkgtests_exit=$PT"
 echo "== check against /repo with change"
 git -C /repo apply $OUT/patch.diff || { echo "patch does not apply to /repo"; exit 2; }
 cd /verif && timeout 1500 ./bin/vcheck run $ID --tier quick > $OUT/check_quick.log 2>&1; CQ=$?
-git -C /repo checkout -- . ; git -C /repo status --short | head -3
+git -C /repo apply -R $OUT/patch.diff || git -C /repo checkout -- . ; git -C /repo status --short | head -3
 tail -6 $OUT/check_quick.log
 echo "check_quick_exit=$CQ"
 cat > $OUT/meta.json <<EOM
